@@ -221,6 +221,12 @@ fn mutate_anon_map(
                 .cloned()
                 .unwrap_or_else(|| value_type.initial_value());
 
+            // the map may have come into existence at this path without the key manager having seen its
+            // keys (variant switch, materialised optional, element cloned within an outer map)
+            for existing_key in value_map.keys() {
+                path_node_ctx.on_key_seen(*existing_key);
+            }
+
             let key = path_node_ctx.next_key();
             let child_path_node_ctx = path_node_ctx.get_or_create_child_mut(&key.to_string());
             let child_mutation_params = child_path_node_ctx
